@@ -438,3 +438,61 @@ def class_level_state(ctx):
     obs.append({"name": "custom:c04-class-level-state/scan", "kind": "frame", "verdict": "discharged", "carries": False,
                 "solver": "ast-scan", "ms": 0.0, "note": f"{scanned} classes under src/ scanned; findings: {len(obs)}"})
     return obs
+
+
+# ------------------------------------------------------------------ repository patterns in parallel mode, foreign cwd
+_PAR_RUNNER = r'''
+import json, os, sys, tempfile, shutil, logging
+sys.path.insert(0, sys.argv[1])
+logging.disable(logging.CRITICAL)
+spec = json.loads(sys.stdin.read())
+from pathlib import Path
+from src.orchestrator.core import Orchestrator
+d = tempfile.mkdtemp(prefix="c04p_")
+neutral = tempfile.mkdtemp(prefix="c04pcwd_")
+out = {}
+try:
+    root = Path(d)
+    (root / "legacy").mkdir(); (root / "app").mkdir()
+    (root / ".thailintignore").write_text("legacy/\n", encoding="utf-8")
+    files = []
+    for i in range(spec["files"]):
+        sub = "legacy" if i % 2 else "app"
+        p = root / sub / ("m%02d.py" % i)
+        p.write_text("def f%d():\n    return %d\n" % (i, 3601 + 11 * i), encoding="utf-8")
+        files.append(p)
+    os.chdir(neutral)  # the command is run from somewhere else than the project root
+    def lines(vs):
+        return sorted((Path(v.file_path).parent.name + "/" + Path(v.file_path).name, v.line) for v in vs
+                      if v.rule_id.startswith("magic-numbers"))
+    out["sequential"] = lines(Orchestrator(project_root=root, config={}).lint_files(files))
+    out["parallel"] = lines(Orchestrator(project_root=root, config={}).lint_files_parallel(files, max_workers=spec["workers"]))
+    out["expected"] = sorted(("app/" + p.name, 2) for p in files if p.parent.name == "app")
+finally:
+    os.chdir("/")
+    shutil.rmtree(d, ignore_errors=True); shutil.rmtree(neutral, ignore_errors=True)
+print(json.dumps(out))
+'''
+
+
+@custom("c04-parallel-repo-patterns", props=["C04"])
+def parallel_repo_patterns(ctx):
+    """Repository-level ignore patterns hold "in every run": a project whose .thailintignore excludes `legacy/`, linted
+    from a DIFFERENT working directory, sequentially and through the process pool (>= 2 x workers files so that the pool is
+    really used). Files under legacy/ must yield nothing, files under app/ their violation, in both modes."""
+    base = {"kind": "bounded", "tool": "Orchestrator.lint_files / lint_files_parallel on a generated project, foreign cwd",
+            "budget": 2, "cases": 2, "solver": "native-run", "ms": 0.0, "carries": True}
+    try:
+        res = _run(_PAR_RUNNER, ctx["repo"], {"files": 8, "workers": 2}, timeout=300)
+    except BaseException as e:  # noqa
+        return [dict(base, name="custom:c04-parallel-repo-patterns/parallel", verdict="unknown", note=f"runner failed: {e!r}"[:300])]
+    exp = [list(x) for x in res["expected"]]
+    obs = []
+    for mode in ("sequential", "parallel"):
+        got = [list(x) for x in res[mode]]
+        ok = got == exp
+        obs.append(dict(base, name=f"custom:c04-parallel-repo-patterns/{mode}", verdict="passed" if ok else "refuted",
+                        witness_confirmed=not ok,
+                        note=f"bounded: {mode} run reports {got}" + ("" if ok else f"; expected {exp} (legacy/ is ignored by .thailintignore)"),
+                        witness=None if ok else {"mode": mode, "reported": got, "expected": exp}))
+    return obs
